@@ -9,17 +9,17 @@ HERE = os.path.dirname(os.path.abspath(__file__))
 CLAIMS = {
     "C01": (
         "MIR rules: who-may-call on alloc/dealloc/realloc and on the slab vector's mutators, single-writer of the storage pointer, backward slices for handle provenance and layout-offset agreement, control-dependence of the shrink scan on is_empty()",
-        "Decides structural necessary conditions only: slot storage immobility, order-preserving slab-vector discipline, shrink_to_fit keeping every non-empty slab, handle provenance (index/pointer computed at insertion and preserved by copy-constructors), stride/offset/array-alignment agreement between SlabLayout and its two readers, VacancyMap::resize contract. Non-overlap and value integrity over all histories and alignment arithmetic for all layouts are not decided.",
+        "Decides structural necessary conditions only: slot storage immobility, order-preserving slab-vector discipline, shrink_to_fit keeping every non-empty slab, handle provenance (index/pointer computed at insertion and preserved by copy-constructors), stride/offset/array-alignment agreement between SlabLayout and its two readers, VacancyMap::resize contract, the blind pools' routing key built from both size and alignment and inner pools created with the layout their key was built from, vacancy-map blocks modified bit-wise only. Non-overlap and value integrity over all histories and alignment arithmetic for all layouts are not decided.",
         "Trusted: rustc nightly MIR and callee resolution, factgen extraction, rule table in vf/props/c01.py (method whitelists, sanctioned mutators).",
         "DESIGN.md section 3, C01"),
     "C02": (
         "MIR rules: exactly-once-per-path counting of dropper creation / counter updates / forget, dominating-switch guards (Occupied arm), who-may-call removal-authority table, must-pass-through for vacancy bookkeeping, duplicate-then-forget discipline",
-        "Decides structural necessary conditions only: dropper pairing, remove destroys once / remove_unpin forgets, double-remove guard, paired counters updated once per path after user code, vacancy bookkeeping never skipped, into_parts forget discipline, single removal authority, Slab::drop policy order, shrink keeps live slabs. It does not decide len/iteration agreement over all histories.",
+        "Decides structural necessary conditions only: dropper pairing, remove destroys once / remove_unpin forgets, double-remove guard, paired counters updated once per path after user code, vacancy bookkeeping never skipped, into_parts forget discipline, single removal authority, Slab::drop policy order, shrink keeps live slabs, every slab created with the owning pool's layout and drop policy (policy handed on unchanged by builders), the vacancy cache kept at the lowest vacant slab (the refill search is forward-only). It does not decide len/iteration agreement over all histories.",
         "Trusted: rustc nightly MIR (elaborated drops), factgen extraction, rule tables in vf/props/c02.py (removal-authority table).",
         "DESIGN.md section 3, C02"),
     "C03": (
         "trait-obligation matrix evaluated by rustc's trait solver on a user-style probe crate (factgen driver answers type_implements_trait for every handle x payload class), checked against a soundness rule; unsafe-impl census from impl facts; struct-field ownership facts; who-may-call on removal",
-        "Decides the 'safe programs' clause (which handle types are Send/Sync/Clone/Deref(Mut) for which payload classes - for all instantiations of those classes, by construction of the trait solver) and the structural clauses: unsafe-impl census, storage kept alive by type, T: Send on every safe insertion API, single remover. The 16 matrix rows violating the rule on the pinned tree are one genuine defect (SlabHandle<T>: Sync without T: Sync), reproduced by a safe program per row and listed as known findings. Exactly-once destruction and quiescent len under all interleavings are not decided.",
+        "Decides the 'safe programs' clause (which handle types are Send/Sync/Clone/Deref(Mut) for which payload classes - for all instantiations of those classes, by construction of the trait solver) and the structural clauses: unsafe-impl census, storage kept alive by type, T: Send on every safe insertion API, single remover, the Drop of a managed unique handle / Remover locks unconditionally and reaches the removal on every path. The 16 matrix rows violating the rule on the pinned tree are one genuine defect (SlabHandle<T>: Sync without T: Sync), reproduced by a safe program per row and listed as known findings. Exactly-once destruction and quiescent len under all interleavings are not decided.",
         "Trusted: rustc nightly trait solver, the probe crate's payload classes, the soundness rule and the justified unsafe-impl table in vf/props/c03.py.",
         "DESIGN.md section 3, C03"),
     "C04": (
@@ -39,16 +39,16 @@ CLAIMS = {
         "DESIGN.md section 3, C06"),
     "C07": (
         "MIR rules keyed on the syntactic re-entry points (Waker clone/wake/drop sites found by the user-code classifier): must-pass-through of a state re-read between a callback and any later cell access or state store, dominance (terminal store before wake, revert before drop, clone before cell), reachability (no callback after extraction), per-path sink counting for cloned wakers, dominating-switch typestate table on Cell<u8> reads",
-        "Decides structural necessary conditions only: re-validation after every callback unless the state is already terminal, terminal-before-wake, extraction-is-last, clone-before-cell, revert-before-drop with a fresh read, release discipline, waker balance, cell typestate table. The tree of nested callback programs is not explored.",
+        "Decides structural necessary conditions only: re-validation after every callback unless the state is already terminal, terminal-before-wake, extraction-is-last, clone-before-cell, revert-before-drop with a fresh read, release discipline, waker balance, cell typestate table, no use of the event reference after the sender-side wake. The tree of nested callback programs is not explored.",
         "Trusted: rustc nightly MIR, factgen extraction, the user-code classification, the cell/typestate tables in vf/props/c07.py restating core/state.rs and docs/callback-safety.md.",
         "DESIGN.md section 3, C07"),
     "C08": (
-        "MIR rules over events + awaiter_set loaded as one program: guard liveness (wake outside the mutex, is_notified read under it, register under it), must-pass-through of the signal re-read between fetch_or(HAS_WAITERS) and register, dominating-switch guards, evaluated orderings/constants, single-writer and path rules on the awaiter list (generation stamp only with the tail link)",
-        "Weakest form: linearizability is NOT decided. Decides structural necessary conditions of 'no lost / duplicated signal': wake outside the lock, set-flag-then-recheck before register, HAS_WAITERS clear discipline, cancel forwards-or-restores decided under the lock, manual-set publish/advance/drain shape, release/acquire on signal publication/consumption, awaiter-list discipline (generation, lifecycle). Only the thread-safe pair is covered.",
+        "MIR rules over events + awaiter_set loaded as one program: guard liveness (wake outside the mutex, is_notified read under it, register under it), must-pass-through of the signal re-read between fetch_or(HAS_WAITERS) and register, dominating-switch guards, evaluated orderings/constants, single-writer and path rules on the awaiter list (generation stamp only with the tail link); for the single-threaded pair: liveness of `&mut` views across waker callbacks (every use after a callback must re-derive the view), signal forwarding shape, drain shape",
+        "Weakest form: linearizability is NOT decided. Decides structural necessary conditions of 'no lost / duplicated signal': wake outside the lock, set-flag-then-recheck before register, HAS_WAITERS clear discipline, cancel forwards-or-restores decided under the lock, manual-set publish/advance/drain shape, release/acquire on signal publication/consumption, awaiter-list discipline (generation, lifecycle), the only way to skip the manual drain is 'no waiters observed'. Single-threaded pair: no stale &mut view of the waiter list/state across a waker callback, notify-or-store on set and on cancel of a notified wait, flag-advance-drain order, register only while unset after consuming the notification.",
         "Trusted: rustc nightly MIR, factgen extraction, constants IDLE/SIGNALED/HAS_WAITERS as evaluated, user-code/guard classification.",
         "DESIGN.md section 3, C08"),
     "C09": (
-        "MIR rules: backward slices for result provenance, field read/write census over the call graphs of take and take_all (no dead criterion), quota guard shape, loop rule for length-bounded accumulation (bulk additions must be sized by the remainder), call-graph field-read rule for builder-time exclusion passes, entry-API merge shape of the candidate map",
+        "MIR rules: backward slices for result provenance, field read/write census over the call graphs of take and take_all (no dead criterion), quota guard shape, loop rule for length-bounded accumulation (bulk additions must be sized by the remainder), call-graph field-read rule for builder-time exclusion passes, entry-API merge shape of the candidate map, pick-removes-picked pairing in revisiting loops, total-sort-largest-first shape of the prefer-same region order",
         "Narrow: decides provenance from the filtered candidate map, that every configured criterion is read, the quota guards, bounded accumulation, independence of filter passes from later-changeable criteria, total per-region grouping. The bounded-accumulation violation on the pinned tree (prefer-same over-selects) was genuine, reproduced and repaired by a fix: commit. Satisfiability/optimality for all topologies is not decided.",
         "Trusted: rustc nightly MIR, factgen extraction, method-name recognition of Vec/HashMap/itertools calls.",
         "DESIGN.md section 3, C09"),
